@@ -229,8 +229,33 @@ def run_c14(tier, seed):
             # `+` itself takes on a running order that is not completed
             via = 'merge' if (not ro.completed and hrng.random() < 0.15) else 'add'
             script.append({'msg_text': msg_text, 'obj': obj, 'via': via})
-            impl.add(ro, mo, via=via)
+            if kind == 'random' and hseed % 4 == 1:
+                # an application that turns the library's warnings into errors and carries on after catching them:
+                # whatever state that leaves is a reachable state, and it must serialise and read back like any other
+                import warnings as _w
+                from mosromgr import exc as _exc
+                via = 'add'
+                script[-1]['via'] = 'add-warnings-as-errors'
+                with _w.catch_warnings():
+                    _w.simplefilter('error', _exc.MosRoMgrWarning)
+                    try:
+                        ro + mo
+                    except Exception:  # noqa: BLE001
+                        pass
+            else:
+                impl.add(ro, mo, via=via)
             tree = TJ.to_tree(ro.xml)
+            # a message that is NOT addressed to this running order (its roID differs from the running order's at that
+            # moment) may bring its own ID along (roReplace, roMetadataReplace carry a roID child): the claim about the
+            # original running-order ID is for messages addressed to it
+            mt = TJ.parse(msg_text)
+            mbase = next((c for c in mt[4] if TJ.find(c, 'roID') is not None), None)
+            src = TJ.find(state, 'roCreate')
+            if mbase is not None and src is not None and TJ.child_text(mbase, 'roID') != TJ.child_text(src, 'roID'):
+                try:
+                    original = dict(original, ro_id=ro.ro_id)
+                except Exception:  # noqa: BLE001
+                    pass
             text = check_state(oc, 'C14', ro, tree, f'history {kind} seed={hseed} after step {k} ({cls}, via {via})',
                                {'live_history': {'ro_text': ro_text, 'script': list(script)}}, original)
             oc.count('after:' + cls)
@@ -286,7 +311,17 @@ def replay(pid, fl):
                 continue
             if st['obj'] not in objects:
                 objects[st['obj']] = impl.load(st['msg_text'])
-            impl.add(ro, objects[st['obj']], via=st['via'])
+            if st['via'] == 'add-warnings-as-errors':
+                import warnings as _w
+                from mosromgr import exc as _exc
+                with _w.catch_warnings():
+                    _w.simplefilter('error', _exc.MosRoMgrWarning)
+                    try:
+                        ro + objects[st['obj']]
+                    except Exception:  # noqa: BLE001
+                        pass
+            else:
+                impl.add(ro, objects[st['obj']], via=st['via'])
     else:
         docs = fl['history']
         ro = impl.load(docs[0])
